@@ -497,16 +497,15 @@ def run(rep):
     for pub in ("forward", "backward", "jacobian"):
         f = mod.func(f"Transform.{pub}")
         ok, det = False, "body is not `return dutils.cast(arg, self._%s(arg))`" % pub
-        rets = [s for s in f.body if isinstance(s, ast.Return)]
-        if len(rets) == 1 and isinstance(rets[0].value, ast.Call):
-            c = rets[0].value
-            argn = f.args.args[1].arg if len(f.args.args) > 1 else None
-            if dotted(c.func) in ("dutils.cast", "cast") and len(c.args) == 2:
-                a0, a1 = c.args
-                if isinstance(a0, ast.Name) and a0.id == argn and isinstance(a1, ast.Call) and \
-                        dotted(a1.func) == f"self._{pub}" and len(a1.args) == 1 and \
-                        isinstance(a1.args[0], ast.Name) and a1.args[0].id == argn:
-                    ok, det = True, ""
+        argn = f.args.args[1].arg if len(f.args.args) > 1 else None
+        # decided on the evaluated return value (a named intermediate is the same wrapper)
+        wpaths_ = [p_ for p_ in pq.PEval().run(f) if p_.how == "return"]
+        want_ = ('call', '.cast', (('sym', 'dutils'), ('sym', argn), ('call', '._' + pub, (('sym', 'self'), ('sym', argn)))))
+        want2_ = ('call', 'f:cast', (('sym', argn), ('call', '._' + pub, (('sym', 'self'), ('sym', argn)))))
+        if argn and wpaths_ and all(pq.same(p_.value, want_) or pq.same(p_.value, want2_) for p_ in wpaths_):
+            ok, det = True, ""
+        elif wpaths_:
+            det += f"; returns {F.show(wpaths_[0].value)[:80]}" if isinstance(wpaths_[0].value, tuple) else ""
         rep.check(ok, "R01.f", file, f"Transform.{pub}", f"Transform.{pub} wrapper", det, line=f.lineno)
     # dutils.cast: for an array input the result is the transformed array converted to the input's dtype, shape untouched
     dm = Mod(rep.repo, "data/dutils.py")
